@@ -419,7 +419,7 @@ func init() {
 func actItems(lo, hi int, maxdim int64, upstreams []int64) []Item {
 	var out []Item
 	add := func(act string, r int, nilconf, up int64) {
-		out = append(out, Item{P: map[string]int64{"rank": int64(r), "maxdim": maxdim, "nilconf": nilconf, "upstream": up}, S: map[string]string{"act": act}})
+		out = append(out, Item{P: map[string]int64{"rank": int64(r), "maxdim": maxdim, "nilconf": nilconf, "upstream": up, "fan": 0}, S: map[string]string{"act": act}})
 	}
 	for _, up := range upstreams {
 		for r := lo; r <= hi; r++ {
